@@ -6,10 +6,20 @@ Clauses (each decided by its own monitor; see RULE / the evidence counters):
   coord        coord[i] == len(list(i)) == number of expected neighbours
   storage      identical lists for (initialsize, deltasize) in {(1,1),(1,3),(2,1),(5,7),(20,10)}
   roundtrip    dump() writes the list (independent reader), NeighborList(model=...) returns it unchanged
+  kept         (round 4) a list that was handed out - raw array, NeighborList object, its deepcopy / pickle / copy,
+               a list read back from a file - still presents the same rows after every later build (same object
+               edited in place, other system of the same size, other cutoff, re-built or re-loaded object), dump
+               and load; at the end of the chain it is judged against the brute-force oracle once more
+  repeat       the same call with equal arguments gives the same lists whatever happened in between (also after
+               the caller overwrote the array it had been handed)
+  inputs       a build leaves positions, cell, origin and periodicity of the caller's System as they were
 """
 from __future__ import annotations
 
+import copy
 import os
+import pathlib
+import pickle
 import shutil
 import sys
 import tempfile
@@ -29,14 +39,31 @@ RULE = ('systems are generated round-robin over 10 configuration classes (sparse
         'x 8 periodicity settings x 5 storage-size pairs; every system is built with its own storage pair and with '
         '(1,1)/(20,10) (all five plus one random pair in [1,30]x[1,15] when N<=150) through NeighborList(...), System.neighborlist(...) or nlist(...), and is '
         'written and read back.  A case is non-trivial when the oracle finds at least one neighbour pair (or an atom '
-        'whose own image lies inside the cutoff); distinct = distinct fingerprint of (positions, cell, origin, pbc, cutoff).')
+        'whose own image lies inside the cutoff); distinct = distinct fingerprint of (positions, cell, origin, pbc, cutoff).  '
+        'Argument forms rotate with the case index: positions as float64 / list / tuple / Fortran-ordered / strided / integer '
+        'array, one / several / trailing unpopulated atom types, cutoff as float / numpy scalar / 0-d array (int, np.int64, '
+        'np.float32 where the value is exact), storage sizes as int / np.int64 / np.int32, nlist(...) by keyword and by position; '
+        'every array and object of a case is judged again at the end of the case.  '
+        'Group "history": chains of 4 builds (+ an echo of the previous entry point after every step, + the first call once '
+        'more on a fresh equal system at the end) over 12 step kinds (positions overwritten in place / re-assigned / perturbed, '
+        'pbc changed in place, box rescaled in place, other system in the same cell, other cell with the same atom count, other '
+        'cutoff, equal arguments again - also after the caller overwrote the array it held -, one atom fewer / more, default '
+        'storage sizes after customised ones) x 5 entry points (NeighborList, System.neighborlist, nlist by keyword / position, '
+        'NeighborList.build on an object that already holds a list) x 3 storage classes (defaults, roomy, tight) x 3 densities x '
+        'N = 1..3 and 6..60; deepcopy / pickle / copy / five load forms of the first list; every result ever handed out is '
+        'compared with the rows it showed then after every later build, copy, dump, load and re-load, and judged against the '
+        'brute-force oracle at the end of the chain.')
 ASSUMPTIONS = ['all atoms lie inside the cell (relative coordinates in [0,1], faces included): the stated precondition',
                'pairs whose 27-image distance is within 1e-9*cutoff + 64*eps*(|pos|max + 3L) of the cutoff are exempt '
                '(counted), except in the exact integer-lattice class where the comparison is exact and strict',
                'cells are right-handed with volume >= 10% of a*b*c; the bin grid is kept below 40000 bins by raising '
                'the smallest cutoffs in elongated/tilted cells',
                'the oracle uses the cell, origin and positions read back from the System object',
-               'oracle shares numpy with the code under test']
+               'oracle shares numpy with the code under test',
+               'positions stored in single precision are outside the quantifier: nlist refuses them loudly (ValueError, buffer '
+               'dtype mismatch); the refusal is accepted and counted, a list that is returned is judged',
+               'views handed out by one NeighborList (.nlist, .coord, [i]) share storage with that object by design; only '
+               'changes caused by LATER builds / loads / copies are violations, not the caller writing into its own list']
 
 CONFIG = {'quick': {'timeout': 900}, 'thorough': {'timeout': 3000}}
 
@@ -156,9 +183,11 @@ def install_monitors(rec, state, nlmod):
     return monitor.observe_function(nlmod.nlist, post, label='nlist')
 
 
-def build(am, nlfun, system, cutoff, sizes, how):
+def build(am, nlfun, system, cutoff, sizes, how, positional=False):
     """One build through one of the public entry points; returns (raw array, NeighborList or None)."""
     ini, dl = sizes
+    if how == 'nlist' and positional:
+        return nlfun(system, cutoff, ini, dl), None
     if how == 'NeighborList':
         nl = am.NeighborList(system=system, cutoff=cutoff, initialsize=ini, deltasize=dl)
         return nl.nlist, nl
@@ -166,6 +195,55 @@ def build(am, nlfun, system, cutoff, sizes, how):
         nl = system.neighborlist(cutoff=cutoff, initialsize=ini, deltasize=dl)
         return nl.nlist, nl
     return nlfun(system, cutoff, initialsize=ini, deltasize=dl), None
+
+
+POSFORMS = ['float64', 'list', 'fortran', 'strided', 'int', 'tuple']
+TYPEFORMS = ['one-type', 'several-types', 'trailing-unpopulated-type']
+SIZEFORMS = ['int', 'np.int64', 'np.int32']
+
+
+def pos_form(pos, form):
+    """The same coordinates handed over in another form (the values are unchanged)."""
+    p = np.asarray(pos, float)
+    if form == 'int':
+        if p.size and np.array_equal(np.round(p), p) and np.abs(p).max() < 2 ** 40:
+            return 'int', p.astype(np.int64)
+        form = 'tuple'
+    if form == 'list':
+        return form, p.tolist()
+    if form == 'tuple':
+        return form, tuple(tuple(float(x) for x in r) for r in p)
+    if form == 'fortran':
+        return form, np.asfortranarray(p)
+    if form == 'strided':
+        big = np.full((len(p), 6), np.nan)
+        big[:, ::2] = p
+        return form, big[:, ::2]
+    return 'float64', np.array(p)
+
+
+def cutoff_form(cutoff, q, exact):
+    """The cutoff handed over as another numeric type of exactly the same value."""
+    c = float(cutoff)
+    if exact:
+        form = ['float', 'int', 'np.int64', 'np.float32', 'np.float64'][q % 5]
+        if form in ('int', 'np.int64') and c != int(c):
+            form = '0-d array'
+        if form == 'np.float32' and float(np.float32(c)) != c:
+            form = 'np.float64'
+    else:
+        form = ['float', 'np.float64', '0-d array'][q % 3]
+    arg = {'float': c, 'int': int(c) if c == int(c) else c, 'np.int64': np.int64(int(c)) if c == int(c) else c, 'np.float32': np.float32(c),
+           'np.float64': np.float64(c), '0-d array': np.array(c)}[form]
+    return form, arg
+
+
+def size_form(sizes, form):
+    if form == 'np.int64':
+        return (np.int64(sizes[0]), np.int64(sizes[1]))
+    if form == 'np.int32':
+        return (np.int32(sizes[0]), np.int32(sizes[1]))
+    return (int(sizes[0]), int(sizes[1]))
 
 
 def check_object(rec, nl, arr, rows, n):
@@ -183,14 +261,15 @@ def check_object(rec, nl, arr, rows, n):
     rec.check(lens_ok, 'coord[i] == len(NeighborList[i])', 'object:coord-length', natoms=n)
 
 
-def roundtrip(rec, ctx, am, nl, rows, n, tmpdir, form, info):
-    path = os.path.join(tmpdir, 'nl.txt')
+def roundtrip(rec, ctx, am, nl, rows, n, tmpdir, form, info, fname='nl.txt', system=None):
+    """dump + independent reader + load through one of the documented forms; returns the read-back object."""
+    path = os.path.join(tmpdir, fname)
     done = False
     with ctx.guard('NeighborList.dump writes the list', 'roundtrip:dump'):
         nl.dump(path)
         done = True
     if not done:
-        return
+        return None
     text = open(path).read()
     parsed, nlines = O.parse_file(text)
     ok = nlines == n and sorted(parsed) == list(range(n)) and all(parsed[i] == rows[i] for i in range(n))
@@ -202,15 +281,19 @@ def roundtrip(rec, ctx, am, nl, rows, n, tmpdir, form, info):
             back = am.NeighborList(model=path)
         elif form == 'content':
             back = am.NeighborList(model=text)
+        elif form == 'pathlib':
+            back = am.NeighborList(model=pathlib.Path(path))
+        elif form == 'System.neighborlist':
+            back = system.neighborlist(model=path)
         else:
             with open(path, 'rb') as f:
                 back = am.NeighborList(model=f)
     if back is None:
-        return
+        return None
     rec.count('roundtrip:' + form)
     okn = rec.check(len(back) == n, 'read-back list has one row per atom', 'roundtrip:natoms', got=len(back), natoms=n)
     if not okn:
-        return
+        return None
     c0 = np.array([len(r) for r in rows])
     rec.check(np.array_equal(np.asarray(back.coord), c0), 'coord survives dump/load', 'roundtrip:coord',
               **_detail(info, got=np.asarray(back.coord)[:20], expected=c0[:20]))
@@ -219,6 +302,334 @@ def roundtrip(rec, ctx, am, nl, rows, n, tmpdir, form, info):
               **_detail(info, atom=bad[:3], got=[np.asarray(back[i]).tolist()[:12] for i in bad[:3]], expected=[rows[i][:12] for i in bad[:3]]))
     bn = np.asarray(back.nlist)
     rec.check(bn.ndim == 2 and bn.shape[0] == n and np.array_equal(bn[:, 0], c0), 'read-back .nlist array leads with coord', 'roundtrip:nlist-array')
+    return back
+
+
+# ====================================================================== call histories (round 4)
+KEPT_CLAUSE = 'a list that was handed out keeps its rows when further lists are built, copied, written or read'
+
+
+class Kept:
+    """One result the caller holds on to: the raw array and/or an object, with the rows it showed when handed out."""
+    __slots__ = ('label', 'frame', 'arr', 'nl', 'rows', 'coord', 'info', 'grew', 'shape')
+
+    def __init__(self, label, frame, arr, nl, rows, info=None, grew=None):
+        self.label, self.frame, self.arr, self.nl, self.info, self.grew = label, frame, arr, nl, info, grew
+        self.rows = [list(r) for r in rows]
+        self.coord = np.array([len(r) for r in rows])
+        self.shape = None if arr is None else tuple(np.asarray(arr).shape)
+
+
+def rows_of_object(nl):
+    return [np.asarray(nl[j]).tolist() for j in range(len(nl))]
+
+
+def rejudge(rec, kept, after, info):
+    """Every kept result against the rows it had when it was handed out."""
+    for kp in kept:
+        n = len(kp.rows)
+        if kp.arr is not None:
+            a = np.asarray(kp.arr)
+            ok = a.ndim == 2 and a.shape == kp.shape and np.array_equal(a[:, 0], kp.coord)
+            now = O.rows_from_array(a)[1] if a.ndim == 2 and a.shape[0] == n else None
+            ok = ok and now == kp.rows
+            rec.count('kept:rejudged:array')
+            if not rec.check(ok, KEPT_CLAUSE, f'kept:{kp.label}:array:after:{after}',
+                             **_detail(info, kept_from_build=kp.frame, natoms_kept=n,
+                                       atoms=[j for j in range(n) if now is None or now[j] != kp.rows[j]][:5],
+                                       got=None if now is None else [r[:12] for r in now[:3]], expected=[r[:12] for r in kp.rows[:3]])):
+                kp.arr = None                       # reported once
+        if kp.nl is not None:
+            ok = len(kp.nl) == n and np.array_equal(np.asarray(kp.nl.coord), kp.coord)
+            now = rows_of_object(kp.nl) if ok else None
+            ok = ok and now == kp.rows
+            rec.count('kept:rejudged:object')
+            if not rec.check(ok, KEPT_CLAUSE, f'kept:{kp.label}:object:after:{after}',
+                             **_detail(info, kept_from_build=kp.frame, natoms_kept=n,
+                                       got_coord=np.asarray(kp.nl.coord)[:12], expected_coord=kp.coord[:12])):
+                kp.nl = None
+
+
+def new_system(am, fr):
+    box = am.Box(avect=fr['vects'][0], bvect=fr['vects'][1], cvect=fr['vects'][2], origin=fr['origin'])
+    return am.System(atoms=am.Atoms(pos=np.array(fr['pos'])), box=box, pbc=fr['pbc'])
+
+
+def apply_step(am, system, fr):
+    """Brings the caller's System into the state of frame ``fr`` the way the step kind says."""
+    step = fr['step']
+    if step in ('moved-inplace', 'perturbed-inplace', 'default-sizes'):
+        system.atoms.pos[:] = fr['pos']
+    elif step == 'pos-reassigned':
+        system.atoms.pos = np.array(fr['pos'])
+    elif step == 'pbc-changed-inplace':
+        system.pbc = fr['pbc']
+    elif step == 'box-rescaled-inplace':
+        system.box_set(vects=np.array(fr['vects']), origin=np.array(fr['origin']), scale=True)
+    elif step in ('cutoff-changed', 'repeat-equal'):
+        pass
+    else:                                           # other system / other cell / one atom fewer / more
+        system = new_system(am, fr)
+    return system
+
+
+def unchanged(system, info):
+    return (np.array_equal(np.asarray(system.atoms.pos), info['pos']) and np.array_equal(np.asarray(system.box.vects), info['vects'])
+            and np.array_equal(np.asarray(system.box.origin), info['origin']) and tuple(bool(x) for x in system.pbc) == info['pbc'])
+
+
+def build_h(am, nlfun, system, cutoff, sizes, how, target=None):
+    kw = {} if sizes is None else dict(initialsize=sizes[0], deltasize=sizes[1])
+    if how == 'NeighborList':
+        nl = am.NeighborList(system=system, cutoff=cutoff, **kw)
+        return nl.nlist, nl
+    if how == 'System.neighborlist':
+        nl = system.neighborlist(cutoff=cutoff, **kw)
+        return nl.nlist, nl
+    if how == 'rebuild':                            # an object that already holds a list is built a second time
+        target.build(system, cutoff, **kw)
+        return target.nlist, target
+    if how == 'nlist-positional':
+        return (nlfun(system, cutoff) if sizes is None else nlfun(system, cutoff, sizes[0], sizes[1])), None
+    return nlfun(system, cutoff, **kw), None
+
+
+def run_history(ctx, am, rec, state, nlfun, tmpdir, n_hist):
+    forms = ['path', 'content', 'stream', 'pathlib', 'System.neighborlist']
+    for i in ctx.cases('history', n_hist):
+        rng = ctx.rng
+        plan = S.gen_history(rng, i)
+        meta, frames = plan['meta'], plan['frames']
+        kept = []
+        system = None
+        prev_rows = None
+        prev_how = None
+        infos = []
+        live = []                                   # (frame, NeighborList, rows) of objects that still show their frame
+        rec.count('history:sizes:' + meta['sizes_class'])
+        rec.count('history:target:' + meta['target'])
+        rec.count('history:tiny', int(meta['tiny']))
+        for k, fr in enumerate(frames):
+            step, how = fr['step'], fr['how']
+            sizes = None if fr['default_sizes'] else plan['sizes']
+            ok = False
+            with ctx.guard('a System can be built / edited in place', 'history:System:' + step):
+                system = new_system(am, fr) if k == 0 else apply_step(am, system, fr)
+                ok = True
+            if not ok:
+                break
+            cutoff = float(fr['cutoff'])            # a fresh, equal float object at every call
+            info = oracle_for(system, cutoff)
+            infos.append(info)
+            n = len(info['pos'])
+            npairs = int(info['adj'].sum()) // 2
+            rec.case(('history', step, how, meta['sizes_class']), nontrivial=npairs > 0,
+                     fp=fingerprint(info['pos'], info['vects'], info['origin'], list(info['pbc']), cutoff, step, how))
+            if i < 24 and k == 1:
+                rec.sample(dict(step=step, how=how, chain=[f['step'] + '/' + f['how'] for f in frames], sizes=plan['sizes'],
+                                natoms=n, cutoff=cutoff, pbc=_pbc_str(info['pbc']), aux=meta['aux'], neighbour_pairs=npairs),
+                           group='history')
+            # ---- the caller overwrites the array it was handed, then asks again with equal arguments
+            scribbled = False
+            if step == 'repeat-equal' and meta['scribble'] and kept:
+                victims = [kp for kp in kept if kp.frame == k - 1 and kp.label in ('built', 'copy')]
+                for kp in victims:
+                    if kp.arr is not None and np.asarray(kp.arr).flags.writeable:
+                        np.asarray(kp.arr)[...] = -7
+                        scribbled = True
+                if scribbled:
+                    kept = [kp for kp in kept if kp not in victims]
+                    live = [t for t in live if t[0] != k - 1]
+                    rec.count('history:caller-overwrote-its-array')
+            # ---- the build
+            target = None
+            if how == 'rebuild':
+                if not live:
+                    # no object yet: a first list (other cutoff) is built into a fresh object and kept as well
+                    c0 = 0.5 * cutoff
+                    state.expected = {}
+                    with ctx.guard('the neighbour list can be built for an in-domain system', 'build:NeighborList'):
+                        t0 = am.NeighborList(system=system, cutoff=c0)
+                        r0 = O.rows_from_array(t0.nlist)[1]
+                        kept.append(Kept('built', k - 0.5, t0.nlist, None, r0, oracle_for(system, c0), (state.last_stats or {}).get('row_growths')))
+                        live.append((k - 0.5, t0, r0))
+                        rec.count('history:first-object-for-rebuild')
+                if live:
+                    fo, target, _r = live.pop(0)
+                    for kp in kept:
+                        if kp.nl is target:
+                            kp.nl = None            # the object moves on; the arrays it handed out stay the caller's
+                else:
+                    how = 'NeighborList'
+            state.expected = {id(system): info}
+            arr = nl = None
+            with ctx.guard('the neighbour list can be built for an in-domain system', f'build:{how}'):
+                arr, nl = build_h(am, nlfun, system, cutoff, sizes, how, target)
+            state.expected = {}
+            if arr is None:
+                break
+            st = state.last_stats or {}
+            grew = st.get('row_growths')
+            rec.count('builds')
+            rec.count('history:builds')
+            rec.count('history:how:' + how)
+            rec.count('history:step:' + step)
+            rec.count(f'history:step-how:{step}:{how}')
+            rec.check(unchanged(system, info), 'a build leaves positions, cell, origin and periodicity of the System as they were',
+                      f'inputs:modified:{how}', **_detail(info))
+            _, rows = O.rows_from_array(arr)
+            if nl is not None:
+                check_object(rec, nl, arr, rows, n)
+            shp = tuple(np.asarray(arr).shape)
+            same = [kp for kp in kept if kp.label == 'built' and kp.arr is not None and kp.shape == shp]
+            rec.count('history:later-build-same-shape-as-kept', int(bool(same)))
+            rec.count('history:later-build-same-shape-as-kept-that-never-grew', int(any(kp.grew == 0 for kp in same)))
+            rec.count('history:later-build-same-shape:' + step, int(bool(same)))
+            if step == 'repeat-equal' and prev_rows is not None:
+                rec.count('repeat:comparisons')
+                rec.count('repeat:after-caller-overwrote', int(scribbled))
+                rec.check(rows == prev_rows, 'the same call with equal arguments gives the same lists', 'repeat:differs:' + how,
+                          **_detail(info, after_overwrite=scribbled, atoms=[j for j in range(n) if j >= len(prev_rows) or rows[j] != prev_rows[j]][:5]))
+            # ---- everything handed out earlier is judged again
+            rejudge(rec, kept, step, info)
+            kp = Kept('built', k, arr, nl, rows, info, grew)
+            kept.append(kp)
+            if nl is not None:
+                live.append((k, nl, rows))
+            prev_rows = rows
+            # ---- echo: the entry point of the previous build is called again on what the caller has now (same object
+            #      after an in-place edit, or the new system), with equal arguments
+            if k >= 1 and prev_how is not None:
+                he = prev_how
+                te = None
+                if he == 'rebuild':
+                    cand = [t for t in live if t[1] is not nl]
+                    if cand:
+                        te = cand[0][1]
+                        live.remove(cand[0])
+                        for kq in kept:
+                            if kq.nl is te:
+                                kq.nl = None
+                    else:
+                        he = 'NeighborList'
+                state.expected = {id(system): info}
+                arr_e = nl_e = None
+                with ctx.guard('the neighbour list can be built for an in-domain system', f'build:{he}'):
+                    arr_e, nl_e = build_h(am, nlfun, system, float(fr['cutoff']), sizes, he, te)
+                state.expected = {}
+                if arr_e is not None:
+                    rows_e = O.rows_from_array(arr_e)[1]
+                    rec.count('builds')
+                    rec.count('history:echo:' + he)
+                    rec.count('history:echo-step:' + step)
+                    rec.count('repeat:comparisons')
+                    rec.check(rows_e == rows, 'the same call with equal arguments gives the same lists', 'repeat:differs:echo:' + he,
+                              **_detail(info, step=step, atoms=[j for j in range(n) if j >= len(rows_e) or rows_e[j] != rows[j]][:5]))
+                    if nl_e is not None:
+                        check_object(rec, nl_e, arr_e, rows_e, n)
+                    rejudge(rec, kept, 'echo', info)
+                    kept.append(Kept('built', k, arr_e, nl_e, rows_e, info, (state.last_stats or {}).get('row_growths')))
+                    if nl_e is not None:
+                        live.append((k, nl_e, rows_e))
+            prev_how = how
+            # ---- copies and read-back lists of the first result join the kept ones
+            if k == 0 and meta['aux'] != 'none':
+                aux = meta['aux']
+                nl0 = nl
+                if nl0 is None:
+                    state.expected = {id(system): info}
+                    with ctx.guard('the neighbour list can be built for an in-domain system', 'build:NeighborList'):
+                        kw = {} if sizes is None else dict(initialsize=sizes[0], deltasize=sizes[1])
+                        nl0 = am.NeighborList(system=system, cutoff=cutoff, **kw)
+                        r0 = O.rows_from_array(nl0.nlist)[1]
+                        rec.count('repeat:comparisons')
+                        rec.check(r0 == rows, 'the same call with equal arguments gives the same lists', 'repeat:differs:NeighborList', **_detail(info))
+                        kept.append(Kept('built', 0, nl0.nlist, nl0, r0, info, (state.last_stats or {}).get('row_growths')))
+                        live.append((0, nl0, r0))
+                    state.expected = {}
+                if nl0 is not None:
+                    made = None
+                    with ctx.guard('a NeighborList can be copied, pickled, written and read', 'aux:' + aux):
+                        if aux == 'deepcopy':
+                            made = copy.deepcopy(nl0)
+                        elif aux == 'pickle':
+                            made = pickle.loads(pickle.dumps(nl0))
+                        elif aux == 'copy':
+                            made = copy.copy(nl0)
+                        else:
+                            made = roundtrip(rec, ctx, am, nl0, rows, n, tmpdir, aux.split(':')[1], info, fname='h0.txt', system=system)
+                    if made is not None:
+                        label = aux.split(':')[0].replace('load', 'loaded')
+                        rec.count('history:aux:' + aux)
+                        kq = Kept(label, 0, made.nlist, made, rows, info, None)
+                        rejudge(rec, [kq], 'made', info)
+                        kept.append(kq)
+        else:
+            # ---- end of the chain: oracle judgement of every kept built array, then dump / load of every live object
+            for kp in kept:
+                if kp.label == 'built' and kp.arr is not None and kp.info is not None:
+                    check_array(rec, kp.arr, kp.info, 'kept')
+                    rec.count('kept:oracle-judged')
+            info = infos[-1]
+            loaded = []
+            for m, (fo, nlo, r) in enumerate(live):
+                if nlo is None:
+                    continue
+                inf = infos[int(np.ceil(fo))] if fo == int(fo) else None
+                back = roundtrip(rec, ctx, am, nlo, r, len(r), tmpdir, forms[(i + m) % len(forms)], inf or info,
+                                 fname='h%d.txt' % (m + 1), system=system)
+                if back is not None:
+                    bshape = tuple(np.asarray(back.nlist).shape)
+                    rec.count('history:later-load-same-shape-as-kept-loaded',
+                              int(any(kp.label == 'loaded' and kp.shape == bshape for kp in kept)))
+                    rejudge(rec, kept, 'load', info)
+                    kq = Kept('loaded', fo, back.nlist, back, r, None, None)
+                    kept.append(kq)
+                    loaded.append((kq, 'h%d.txt' % (m + 1)))
+            # an object that was read from one file reads another one: the arrays it handed out before stay
+            if len(loaded) >= 2:
+                kq, _f = loaded[0]
+                kq2, f2 = loaded[-1]
+                obj = kq.nl
+                if obj is not None:
+                    kq.nl = None
+                    okl = False
+                    with ctx.guard('NeighborList.load reads a second file into an existing object', 'roundtrip:reload'):
+                        obj.load(os.path.join(tmpdir, f2))
+                        okl = True
+                    if okl:
+                        rec.count('history:reload')
+                        rejudge(rec, kept, 'reload', info)
+                        rejudge(rec, [Kept('loaded', kq2.frame, obj.nlist, obj, kq2.rows)], 'reload-self', info)
+            # ---- the first call once more, on a fresh equal system, after everything that happened in between
+            fr0, inf0 = frames[0], infos[0]
+            fresh = None
+            with ctx.guard('a System can be built from cell, origin, pbc and positions', 'build:System'):
+                fresh = am.System(atoms=am.Atoms(pos=np.array(inf0['pos'])), pbc=inf0['pbc'],
+                                  box=am.Box(avect=inf0['vects'][0], bvect=inf0['vects'][1], cvect=inf0['vects'][2], origin=inf0['origin']))
+            first = next((kp for kp in kept if kp.label == 'built' and kp.frame == 0), None)
+            if fresh is not None and unchanged(fresh, inf0):
+                state.expected = {id(fresh): inf0}
+                arr = None
+                with ctx.guard('the neighbour list can be built for an in-domain system', 'build:' + HOWS3[i % 3]):
+                    arr, _nl = build_h(am, nlfun, fresh, float(inf0['cutoff']), plan['sizes'], HOWS3[i % 3])
+                state.expected = {}
+                if arr is not None:
+                    rec.count('builds')
+                    rows = O.rows_from_array(arr)[1]
+                    rows0 = first.rows if first is not None else None
+                    if rows0 is not None:
+                        rec.count('repeat:comparisons')
+                        rec.count('repeat:first-call-again-at-the-end')
+                        rec.check(rows == rows0, 'the same call with equal arguments gives the same lists', 'repeat:differs:end-of-chain',
+                                  **_detail(inf0, atoms=[j for j in range(len(rows0)) if j >= len(rows) or rows[j] != rows0[j]][:5]))
+                    rejudge(rec, kept, 'first-call-again', inf0)
+            else:
+                rec.count('repeat:fresh-system-not-bitwise-equal (skipped)')
+        state.expected = {}
+
+
+HOWS3 = ['NeighborList', 'System.neighborlist', 'nlist']
 
 
 def run(ctx):
@@ -231,9 +642,11 @@ def run(ctx):
 
     asan = ctx.flavour == 'asan'
     n_sys = ctx.pick(600, 8000)
+    n_hist = ctx.pick(360, 3600)
     shrink = 1
     if asan:
         n_sys //= 8
+        n_hist //= 6
         shrink = 2
     # inside the shadow tree when there is one: removed with it even if this worker is killed
     sh = os.environ.get('VF_SHADOW')
@@ -252,10 +665,28 @@ def run(ctx):
                 rec.count('generator:atom-outside-cell (case skipped)')
                 continue
             system = None
+            q = i // len(S.CONFIGS)
+            pform, pos_in = pos_form(case['pos'], POSFORMS[q % len(POSFORMS)])
+            tform = TYPEFORMS[(q // 2) % len(TYPEFORMS)]
+            cform, cutoff_arg = cutoff_form(cutoff, q, case['exact'])
+            sform = SIZEFORMS[q % len(SIZEFORMS)]
             with ctx.guard('a System can be built from cell, origin, pbc and positions', 'build:System'):
                 box = am.Box(avect=case['vects'][0], bvect=case['vects'][1], cvect=case['vects'][2], origin=case['origin'])
-                system = am.System(atoms=am.Atoms(pos=np.array(case['pos'])), box=box, pbc=case['pbc'])
+                akw, skw = {}, {}
+                if tform == 'several-types' and n >= 2:
+                    akw['atype'] = np.array([1 + j % 3 for j in rng.permutation(n)])
+                    if n < 3:
+                        akw['atype'] = np.arange(1, n + 1)
+                    skw['symbols'] = ('Al', 'Cu', 'Ni')[:int(akw['atype'].max())]
+                elif tform == 'trailing-unpopulated-type':
+                    akw['atype'] = np.ones(n, dtype=int)
+                    skw['symbols'] = ('Al', 'Cu', 'Ni')
+                system = am.System(atoms=am.Atoms(pos=pos_in, **akw), box=box, pbc=case['pbc'], **skw)
             if system is None:
+                continue
+            if not rec.check(np.asarray(system.atoms.pos).dtype == np.float64 and np.array_equal(np.asarray(system.atoms.pos), case['pos']),
+                             'positions handed over as list / integer / strided / Fortran-ordered array are stored with their values',
+                             'build:System:pos-form:' + pform, dtype=str(np.asarray(system.atoms.pos).dtype)):
                 continue
             info = oracle_for(system, cutoff, exact=case['exact'])
             state.expected = {id(system): info}
@@ -280,6 +711,10 @@ def run(ctx):
             rec.count('class:N>=300', int(n >= 300))
             rec.count('class:N>=1000', int(n >= 1000))
             rec.count('class:origin:' + str(meta['origin']))
+            rec.count('class:pos-form:' + pform)
+            rec.count('class:types:' + tform)
+            rec.count('class:cutoff-form:' + cform)
+            rec.count('class:sizes-form:' + sform)
             rec.count('cover:pairs-only-across-a-periodic-face', int(cross.sum()) // 2)
             rec.count('cover:cases-with-cross-face-pairs', int(cross.any()))
             rec.count('cover:atoms-with-own-image-inside-cutoff', selfimg)
@@ -305,13 +740,17 @@ def run(ctx):
             else:
                 size_list += [s for s in ((1, 1), (20, 10)) if s != case['sizes']]
             first_rows, first_nl, first_arr = None, None, None
+            kept = []
             for k, sizes in enumerate(size_list):
                 arr = nl = None
                 hk = how if k == 0 else hows[(i + k) % 3]
                 with ctx.guard('the neighbour list can be built for an in-domain system', f'build:{hk}'):
-                    arr, nl = build(am, nlfun, system, cutoff, sizes, hk)
+                    arr, nl = build(am, nlfun, system, cutoff_arg, size_form(sizes, sform), hk, positional=bool((i + k) % 2))
                 if arr is None:
                     continue
+                if k == 0:
+                    rec.check(unchanged(system, info), 'a build leaves positions, cell, origin and periodicity of the System as they were',
+                              f'inputs:modified:{hk}', **_detail(info))
                 rec.count('builds')
                 rec.count('builds:' + hk)
                 st = state.last_stats or {}
@@ -321,6 +760,7 @@ def run(ctx):
                 _, rows = O.rows_from_array(arr)
                 if nl is not None:
                     check_object(rec, nl, arr, rows, n)
+                kept.append(Kept('built', k, arr, nl, rows))
                 if first_rows is None:
                     first_rows, first_nl, first_arr = rows, nl, arr
                 else:
@@ -349,7 +789,26 @@ def run(ctx):
                         bad = [j for j in range(n) if np.asarray(back[j]).tolist() != first_rows[j]]
                         rec.check(len(back) == n and not bad, 'every list survives dump / System.neighborlist(model=...)',
                                   'roundtrip:System.neighborlist(model):rows', natoms=n)
+            rejudge(rec, kept, 'end-of-case', info)
+            # ---- positions held in single precision: outside the quantifier; a loud refusal is accepted and counted,
+            #      a list that is returned is judged like any other
+            if q % 6 == 5 and n <= FIVE_SIZES_MAX_N:
+                p32 = np.asarray(info['pos'], np.float32)
+                if np.array_equal(p32.astype(float), info['pos']):
+                    rec.count('class:pos-form:float32-exact')
+                    arr32 = None
+                    with ctx.guard('float32 positions: refused loudly or answered correctly', 'build:float32-positions',
+                                   accept=(ValueError, TypeError)):
+                        s32 = am.System(atoms=am.Atoms(pos=p32), box=am.Box(avect=case['vects'][0], bvect=case['vects'][1],
+                                        cvect=case['vects'][2], origin=case['origin']), pbc=case['pbc'])
+                        state.expected = {id(s32): info}
+                        arr32, _nl = build(am, nlfun, s32, cutoff, case['sizes'], hows[q % 3])
+                    if arr32 is not None:
+                        rec.count('float32-positions:answered')
+                        rec.check(O.rows_from_array(arr32)[1] == first_rows, 'float32 positions give the list of the same float64 positions',
+                                  'float32-positions:differs', **_detail(info))
             state.expected = {}
+        run_history(ctx, am, rec, state, nlfun, tmpdir, n_hist)
     finally:
         shutil.rmtree(tmpdir, ignore_errors=True)
 
@@ -391,3 +850,47 @@ def run(ctx):
     rec.floor('roundtrip:path', 10)
     rec.floor('roundtrip:content', 10)
     rec.floor('roundtrip:stream', 10)
+    # ---- round 4: argument forms, kept results, call histories
+    for f in ('float64', 'list', 'fortran', 'strided', 'tuple'):
+        rec.floor('class:pos-form:' + f, 20)
+    rec.floor('class:pos-form:int', 3)
+    rec.floor('class:pos-form:float32-exact', 3)
+    for f in TYPEFORMS:
+        rec.floor('class:types:' + f, 50)
+    for f in ('float', 'np.float64', '0-d array'):
+        rec.floor('class:cutoff-form:' + f, 50)
+    for f in ('int', 'np.int64', 'np.float32'):
+        rec.floor('class:cutoff-form:' + f, 3)
+    for f in SIZEFORMS:
+        rec.floor('class:sizes-form:' + f, 50)
+    rec.floor('history:builds', 1000)
+    for st_ in S.HSTEPS:
+        rec.floor('history:step:' + st_, 40)
+    for h in S.HHOWS:
+        rec.floor('history:how:' + h, 150)
+    for st_ in S.HSTEPS:
+        for h in S.HHOWS:
+            rec.floor(f'history:step-how:{st_}:{h}', 2)
+    for c in S.HSIZES:
+        rec.floor('history:sizes:' + c, 100)
+    for c in S.HTARGETS:
+        rec.floor('history:target:' + c, 100)
+    rec.floor('history:tiny', 30)
+    for a_ in S.HAUX:
+        if a_ != 'none':
+            rec.floor('history:aux:' + a_, 20)
+    rec.floor('history:later-build-same-shape-as-kept', 200)
+    rec.floor('history:later-build-same-shape-as-kept-that-never-grew', 100)
+    rec.floor('history:later-load-same-shape-as-kept-loaded', 20)
+    rec.floor('history:reload', 100)
+    for h in S.HHOWS:
+        rec.floor('history:echo:' + h, 100)
+    for st_ in S.HSTEPS:
+        rec.floor('history:echo-step:' + st_, 40)
+    rec.floor('history:caller-overwrote-its-array', 10)
+    rec.floor('kept:rejudged:array', 3000)
+    rec.floor('kept:rejudged:object', 1500)
+    rec.floor('kept:oracle-judged', 1000)
+    rec.floor('repeat:comparisons', 300)
+    rec.floor('repeat:after-caller-overwrote', 10)
+    rec.floor('repeat:first-call-again-at-the-end', 250)
